@@ -42,6 +42,22 @@ let run_mask (f : string array) : string =
   let k = match bytes_of_hex f.(4) with [a;b;c;d] -> (((a,b),c),d) | _ -> failwith "key" in
   hex_of_bytes (mask_fast32 p k (bytes_of_hex f.(5)))
 
+(* MA id kind ... : Message / Frame accessor API (MessageApi.v) *)
+let run_message_api (f : string array) : string =
+  let m = match f.(2) with
+    | "T" -> MText (bytes_of_hex f.(3))
+    | "B" -> MBinary (bytes_of_hex f.(3))
+    | "PI" -> MPing (bytes_of_hex f.(3))
+    | "PO" -> MPong (bytes_of_hex f.(3))
+    | "C" -> MClose (close_of_fields f.(3) f.(4))
+    | "F" -> MFrame { f_hdr = header_of_fields f.(3) f.(4) f.(5); f_payload = bytes_of_hex f.(6) }
+    | _ -> failwith "kind" in
+  let b x = if x then "1" else "0" in
+  let t = match msg_into_text m with Some s -> "ok=" ^ hex_of_bytes s | None -> "err" in
+  b (msg_is_text m) ^ b (msg_is_binary m) ^ b (msg_is_ping m) ^ b (msg_is_pong m) ^ b (msg_is_close m)
+  ^ ":" ^ string_of_n (msg_len m) ^ ":" ^ b (msg_is_empty m) ^ ":" ^ hex_of_bytes (msg_into_data m)
+  ^ ":" ^ t ^ ":" ^ t ^ ":" ^ hex_of_bytes (msg_display m) ^ ":" ^ hex_of_bytes (msg_into_data m) ^ ":1"
+
 (* FS id pre ops rds wrs fls : FrameSocket ops  r:<max|none> | w:<flags>:<opc>:<mask>:<hex> | s:<flags>:<opc>:<mask>:<hex> | f *)
 let fs_op_of (s : string) : fs_op =
   match split ':' s with
@@ -89,7 +105,7 @@ let run_socket_digest (f : string array) : string =
 let () =
   let handlers : (string * (string array -> string)) list ref = ref [
     ("S", run_socket); ("SDG", run_socket_digest); ("FS", run_framesocket); ("CC", run_closecode); ("HP", run_header_parse); ("HF", run_header_format);
-    ("FF", run_frame_format); ("U8", run_utf8); ("MK", run_mask) ] in
+    ("FF", run_frame_format); ("U8", run_utf8); ("MK", run_mask); ("MA", run_message_api) ] in
   handlers := !handlers @ Driver_hs.handlers;
   try
     while true do
